@@ -32,13 +32,16 @@ def _ns(obj_type, num_slices, **kw):
     return types.SimpleNamespace(obj_type=obj_type, constraints=dict(BASE, **kw), num_slices=num_slices, sampling=(1.0, 1.0))
 
 
-def object_claim(obj_type, shape, masked=False, identical=False, baseline=False):
+def object_claim(obj_type, shape, masked=False, identical=False, baseline=False, factor=1.0, concrete_mask=None):
     def claim(I):
         with I.patch_torch(omod):
             kind = "real" if obj_type == "potential" else "complex"
             obj = I.tensor("obj", shape, kind, lo=-3, hi=3)
             mask = I.tensor("mask", shape[1:], lo=0, hi=1) if masked else None
-            ns = _ns(obj_type, shape[0], apply_fov_mask=masked, identical_slices=identical, fix_potential_baseline=baseline)
+            if concrete_mask is not None:
+                mask = torch.tensor(concrete_mask, dtype=torch.float64)
+            ns = _ns(obj_type, shape[0], apply_fov_mask=masked, identical_slices=identical, fix_potential_baseline=baseline,
+                     fix_potential_baseline_factor=factor)
             f = omod.ObjectConstraints.apply_hard_constraints
             out = f(ns, obj.clone(), mask)
             rels = []
@@ -53,7 +56,7 @@ def object_claim(obj_type, shape, masked=False, identical=False, baseline=False)
             if identical and shape[0] > 1:
                 for s in range(1, shape[0]):
                     rels.append(Rel("identical_slices", out[s], out[0], ntol=1e-6))
-            if not masked and not identical:
+            if not masked and not identical and not baseline:
                 again = f(ns, out.clone(), mask)
                 rels.append(Rel("reapplying_keeps_amplitude", _a2(again), a2, ntol=1e-5))
             return rels
@@ -133,6 +136,11 @@ def cases(tier):
     out.append(("object[complex;(1, 2, 2);fov_mask]", object_claim("complex", (1, 2, 2), masked=True), L))
     out.append(("object[potential;(2, 1, 2);fov_mask]", object_claim("potential", (2, 1, 2), masked=True), L))
     out.append(("object[potential;(1, 2, 2);baseline]", object_claim("potential", (1, 2, 2), baseline=True), L))
+    out.append(("object[potential;(1, 2, 2);baseline factor 1.5]", object_claim("potential", (1, 2, 2), baseline=True, factor=1.5), L))
+    out.append(("object[potential;(1, 2, 2);baseline, mask with background]",
+                object_claim("potential", (1, 2, 2), baseline=True, concrete_mask=[[[1.0, 0.9], [0.2, 0.1]]]), L))
+    out.append(("object[potential;(2, 1, 2);baseline, mask with background, factor 0.5]",
+                object_claim("potential", (2, 1, 2), baseline=True, factor=0.5, concrete_mask=[[[1.0, 0.3]], [[0.9, 0.2]]]), L))
     for t in ("complex", "pure_phase", "potential"):
         out.append((f"object[{t};(2, 1, 2);identical_slices]", object_claim(t, (2, 1, 2), identical=True), L))
         out.append((f"object[{t};(3, 1, 1);identical_slices]", object_claim(t, (3, 1, 1), identical=True), L))
